@@ -194,6 +194,7 @@ static const char *const observers[] = {
     /* subscripts that do not fit an int: no element has them */
     "[2147483648]", "[4294967296]", "[4294967297]", "a[4294967297]",
     "[18446744073709551616]", "[99999999999999999999]", "b[0][4294967296]",
+    "[2147483647]", "a[2147483647]",
 };
 #define NOBS ((int)(sizeof(observers) / sizeof(observers[0])))
 
@@ -208,6 +209,8 @@ static const char *const bad_deletes[] = {
 static const char *const bad_sets[] = {
     "[4294967296]=x", "[4294967297]=x", "a[4294967296]=x", "[4294967296+]=x",
     "[18446744073709551616]=x", "b[0][4294967297]#",
+    /* the largest subscript an int holds: no list can be made that long */
+    "[2147483647]=x", "a[2147483647]=x", "[2147483647+]#",
 };
 #define NBADSET ((int)(sizeof(bad_sets) / sizeof(bad_sets[0])))
 
